@@ -248,6 +248,17 @@ class ELF(Layout):
     modelled = True
     @staticmethod
     def gen(rng, variant):
+        if variant == "bigpage":
+            # 8 KiB pages (alpha) whose file data is not aligned to the 4 KiB blocks of the file cache: every page is
+            # a chunk of three file cache blocks, the first and the last one partial
+            ps = 8192
+            segs, pa = [], rng.choice([0, ps])
+            for i in range(rng.randint(1, 3)):
+                n = rng.randint(2, 5)
+                segs.append(dict(paddr=pa, filesz=n * ps, memsz=n * ps, voff=VOFF, salt=0))
+                pa += (n + rng.choice([0, 1, 3])) * ps
+            return ELF(dict(kind="elf", segs=segs, variant=variant, ps=ps, machine="alpha",
+                            skew=rng.choice([8, 0x123, 0x800, 0xff8, 0x1008]), never=rng.random() < 0.6))
         segs = []
         pa = rng.choice([0, PS, 3 * PS])
         for i in range(rng.randint(2, 6)):
@@ -286,15 +297,19 @@ class ELF(Layout):
         return ELF(dict(kind="elf", segs=order, variant=variant))
     def build(self, R, tag):
         p = R.path("%s.elf" % tag)
-        self.placed = dumpgen.write_elf_salted(p, self.spec["segs"], ps=PS)
+        self.placed = dumpgen.write_elf_salted(p, self.spec["segs"], ps=self.spec.get("ps", PS), machine=self.spec.get("machine", "x86_64"),
+                                               skew=self.spec.get("skew", 0))
         self.paths = [p]
+    def prologue(self):
+        return ["setnum file.mmap_policy 0"] if self.spec.get("never") else []
     def model_lines(self):
-        return ["layout elf %d" % PS] + ["seg %d %d %d %d %d %d" % (off, s["filesz"], s["paddr"], s["memsz"], (s["paddr"] + s["voff"]) % W, s.get("salt", 0))
+        return ["layout elf %d" % self.spec.get("ps", PS)] + ["seg %d %d %d %d %d %d" % (off, s["filesz"], s["paddr"], s["memsz"], (s["paddr"] + s["voff"]) % W, s.get("salt", 0))
                                         for off, s in self.placed]
     def ops(self, rng, n):
         segs = self.spec["segs"]
         out = []
         zx = 0
+        PS = self.spec.get("ps", globals()["PS"])
         for _ in range(n):
             r = rng.random()
             if r < 0.72:
@@ -342,6 +357,8 @@ def make_layout(rng, i):
         return DDPGT.gen(rng)
     if k == 4:
         return ELF.gen(rng, "overlap")
+    if k == 9:
+        return ELF.gen(rng, "bigpage")
     return DD.gen(rng, "plain")
 
 
